@@ -30,6 +30,7 @@ class GenTraceHeader(ReadContract):
     """gen_trace_header(i) on a regular file: IndexError iff i is not a trace of the file; every stored field is the
     int32 at  array_offset + 4*i  (one 4-byte read per stored array), constants come from the template"""
     load_all = False
+    cache_state = 'fresh'
 
     def inputs(self, c):
         g, rd = self.reader(c)
@@ -39,6 +40,11 @@ class GenTraceHeader(ReadContract):
         const = c.sym_int('const5', name='constant_field_value')
         rd.fields['segy_traceheader_template'] = {1: offs[0], 5: const, 189: offs[1], 193: 0}
         rd.fields['stored_header_keys'] = [1, 189]
+        if self.cache_state == 'partial':
+            # (C15) an earlier get_tracefield_values(1) left ONE of the stored arrays in the cache, padded convention
+            grid = g.nT if g.two_d else mul(g.nI, g.nX)
+            rd.fields['variant_headers'] = {1: SArray((grid,), lambda idx: footer_word(add(offs[0].value, mul(4, idx[0]))), 'int32')}
+            rd.fields['include_padding'] = True
         return dict(self=rd, _g=g, index=c.sym_int('index', name='index'), load_all_headers=self.load_all, _offs=offs, _const=const)
 
     def ntraces(self, g):
@@ -72,6 +78,10 @@ class GenTraceHeader(ReadContract):
             c.ensure(mk_bool(len(evs) == 2), 'reads.one_per_stored_array', kind='ghost')
             for ev, off in zip(evs, a['_offs']):
                 c.ensure(And(eq(ev.off, off.value), eq(ev.n, F(a['self'], 'header_entry_length_bytes'))), 'reads.the_whole_array_once', kind='ghost')
+        elif self.load_all:
+            evs = GH.reads(c)
+            want = 1 if self.cache_state == 'partial' else 2
+            c.ensure(mk_bool(len(evs) == want), 'reads.only_the_arrays_not_yet_cached', kind='ghost')
         elif not self.load_all:
             evs = GH.reads(c)
             c.ensure(mk_bool(len(evs) == 2), 'reads.one_per_stored_array', kind='ghost')
@@ -82,6 +92,8 @@ class GenTraceHeader(ReadContract):
 register(GenTraceHeader, 'read.py::SgzReader.gen_trace_header', ['C04', 'C07', 'C14'], [CFG_DEFAULT[3], CFG_ZSLICE[0]], modes=('file',))
 register(type('GenTraceHeader2d', (GenTraceHeader,), dict(two_d=True)), 'read.py::SgzReader.gen_trace_header', ['C04', 'C07', 'C09', 'C14'], [ALL2[0]], modes=('file',), tag='2d')
 register(GenTraceHeader, 'read.py::SgzReader.gen_trace_header', ['C17', 'C18'], [CFG_DEFAULT[3]], modes=('fault',))
+for _cs in ('fresh', 'partial'):
+    register(type('GenTraceHeaderAll', (GenTraceHeader,), dict(load_all=True, cache_state=_cs)), 'read.py::SgzReader.gen_trace_header', ['C15', 'C04'], [CFG_DEFAULT[3]], modes=('file',), tag='load_all,cache:' + _cs)
 register(type('GenTraceHeader2dF', (GenTraceHeader,), dict(two_d=True)), 'read.py::SgzReader.gen_trace_header', ['C17', 'C18'], [ALL2[0]], modes=('fault',), tag='2d')
 
 
